@@ -512,6 +512,22 @@ int64_t fault_short_sleep(int64_t ns) {
   return part;
 }
 
+// Which of n waiters does a wake-up that cannot wake all of them pick? The
+// kernel promises no order; the choice is a recorded decision (default: first).
+int pick_waiter(int n, int seq) {
+  Thread* me = self;
+  if (n <= 1) return 0;
+  if (G.replay) {
+    auto range = G.rmap.equal_range(dkey(me->id, me->op, me->k));
+    for (auto it = range.first; it != range.second; ++it)
+      if (it->second.kind == D_PICK && it->second.arg2 == seq) return (int)((uint64_t)it->second.arg % (uint64_t)n);
+    return 0;
+  }
+  int v = (int)G.srng.below((uint64_t)n);
+  if (v) log_dec(me, D_PICK, v, seq);
+  return v;
+}
+
 // The current thread blocks. State is set, another thread chosen.
 void block(State st, uintptr_t addr, int64_t deadline, int wait_tid) {
   Thread* me = self;
